@@ -34,8 +34,8 @@ def run(ctx):
         sets.append(("corpus", c))
     if thorough:
         sets.append(("ug", lc.universe(ctx, "ug", 3, 2, 1)))
-        sets.append(("ug4", lc.universe(ctx, "ug4", 4, 2, 97)))
-        sets.append(("rnd", lc.random_grammars(ctx, 6000)))
+        # (a universe with 4 rules cannot be enumerated by TLC within the time limit even when sampled with a stride: random grammars instead)
+        sets.append(("rnd", lc.random_grammars(ctx, 12000)))
     else:
         sets.append(("ug", lc.universe(ctx, "ug", 3, 2, 24)))
         sets.append(("rnd", lc.random_grammars(ctx, 400)))
